@@ -65,6 +65,10 @@ func c20Directed(tier string) [][]uint64 {
 		for place := uint64(0); place < 3; place++ {
 			out = append(out, []uint64{kind, 0, place, 0, 0, 0, 1, 1}) // megabytes, compressed
 		}
+		out = append(out, []uint64{kind, 0, 0, 0, 0, 0, 1, 1, 1}) // between the default and a raised limit
+		if tier != "quick" {
+			out = append(out, []uint64{kind, 1, 1, 0, 0, 0, 1, 1, 1}, []uint64{kind, 0, 2, 0, 0, 0, 1, 1, 1}, []uint64{kind, 1, 0, 1, 0, 0, 1, 1, 1})
+		}
 	}
 	return out
 }
@@ -79,6 +83,9 @@ func c20Run(r *core.Run) {
 	op2 := c20Ops[t.Int(len(c20Ops), "c20.op2")]
 	compress := t.Int(2, "c20.compress") == 1
 	big := t.Int(150, "c20.big") == 1 // a message of 1-4 MiB (below every limit), always presented compressed too
+	// the deployment raised MaximumDecompressedBodySize (8 MiB) and the message inflates to 5.5-7 MiB: above the
+	// default limit, below the configured one
+	raised := big && t.Int(3, "c20.big.raised") == 1
 
 	s := NewStd(r)
 	r.Probe("kind=" + kind)
@@ -116,6 +123,9 @@ func c20Run(r *core.Run) {
 		cfg.Store = &world.SimCertStore{Certs: []*world.Cert{c}}
 		cfg.SkipSig = skip
 		cfg.AllowMissing = true
+		if raised {
+			cfg.MaxBody = 8 << 20
+		}
 		cfg.EncStyle, cfg.EncKeyIdx, cfg.EncCert = world.KeyField, c20SPKey, world.MintCert(c20SPKey, s.Epoch.Add(-time.Hour), s.Epoch.Add(1000*time.Hour), 3)
 		n, err := world.NewSPNode(&cfg, r.Sim.Time)
 		if err != nil {
@@ -151,6 +161,10 @@ func c20Run(r *core.Run) {
 		m.InResponseTo = "_req" + strings.Repeat("x", (1<<20)+t.Int(3<<20, "c20.big.n"))
 		compress = true
 		r.Probe("message_of_megabytes_compressed")
+		if raised {
+			m.InResponseTo = "_req" + strings.Repeat("x", (11<<19)+t.Int(3<<19, "c20.big.n2"))
+			r.Probe("message_between_default_and_configured_limit")
+		}
 	}
 	lay := world.DrawLayout(t)
 	if sh := t.Int(12, "c20.idpshadow"); sh >= 1 && sh <= 6 {
@@ -258,7 +272,12 @@ func c20Run(r *core.Run) {
 		ctx := obs("kind", kind, "issued_by", string(rune('A'+who)), "accepting_config", n.Cfg.Name, "envelope_ops", applied, "place", placeNames[place], "skip", skip, "compressed", compress, "layout", lay.Sig(),
 			"pre", fmt.Sprintf("%+v", p), "validated", fmt.Sprintf("%+v", v), "pre_err", fmt.Sprint(pout.Err), "delivered", trunc(xml, 1500))
 		if !p.ok {
-			r.Fail("agree", "C20/accepted-but-pre-decode-failed/"+kind, ctx)
+			sig := "C20/accepted-but-pre-decode-failed/" + kind
+			if raised && strings.Contains(fmt.Sprint(pout.Err), "exceeds maximum size") {
+				sig += "/inflated-size-between-default-and-configured-limit"
+				ctx["delivered"] = trunc(xml, 300)
+			}
+			r.Fail("agree", sig, ctx)
 			break
 		}
 		for _, f := range [][3]string{{"ID", p.id, v.id}, {"InResponseTo", p.irt, v.irt}, {"Destination", p.dest, v.dest}, {"Version", p.version, v.version}, {"Issuer", p.issuer, v.issuer}} {
